@@ -118,6 +118,9 @@ mod d {
     macro_rules! edge_nth { ($n:expr, $p:expr) => { $n.iter_out().nth($p) }; }
     macro_rules! pre_nodes { ($n:expr) => { $n.preorder().search_nodes() }; }
     macro_rules! post_nodes { ($n:expr) => { $n.postorder().search_nodes() }; }
+    macro_rules! graph_cap { ($n:expr) => { Graph::with_capacity($n) }; }
+    macro_rules! graph_sizeof { ($g:expr) => { $g.sizeof() }; }
+    macro_rules! idx_ref { ($g:expr, $k:expr) => { *$g[&$k].key() }; }
     macro_rules! deg { ($n:expr) => { $n.out_degree() + $n.in_degree() }; }
 
     macro_rules! dot_attr {
@@ -155,6 +158,9 @@ mod sd {
     macro_rules! edge_nth { ($n:expr, $p:expr) => { $n.iter_out().nth($p) }; }
     macro_rules! pre_nodes { ($n:expr) => { $n.preorder().search_nodes() }; }
     macro_rules! post_nodes { ($n:expr) => { $n.postorder().search_nodes() }; }
+    macro_rules! graph_cap { ($n:expr) => {{ let _ = $n; Graph::new() }}; }
+    macro_rules! graph_sizeof { ($g:expr) => { $g.sizeof() }; }
+    macro_rules! idx_ref { ($g:expr, $k:expr) => { *$g[&$k].key() }; }
     macro_rules! deg { ($n:expr) => { $n.out_degree() + $n.in_degree() }; }
 
     macro_rules! dot_attr {
@@ -217,6 +223,9 @@ mod u {
     macro_rules! edge_nth { ($n:expr, $p:expr) => { $n.iter().nth($p) }; }
     macro_rules! pre_nodes { ($n:expr) => { $n.order().pre().search_nodes() }; }
     macro_rules! post_nodes { ($n:expr) => { $n.order().post().search_nodes() }; }
+    macro_rules! graph_cap { ($n:expr) => {{ let _ = $n; Graph::new() }}; }
+    macro_rules! graph_sizeof { ($g:expr) => { $g.sizeof() }; }
+    macro_rules! idx_ref { ($g:expr, $k:expr) => { *$g[$k].key() }; }
     macro_rules! deg { ($n:expr) => { $n.degree() }; }
 
     macro_rules! dot_attr {
@@ -254,6 +263,9 @@ mod su {
     macro_rules! edge_nth { ($n:expr, $p:expr) => { $n.iter().nth($p) }; }
     macro_rules! pre_nodes { ($n:expr) => { $n.order().pre().search_nodes() }; }
     macro_rules! post_nodes { ($n:expr) => { $n.order().post().search_nodes() }; }
+    macro_rules! graph_cap { ($n:expr) => {{ let _ = $n; Graph::new() }}; }
+    macro_rules! graph_sizeof { ($g:expr) => {{ let _ = $g; 1usize }}; }
+    macro_rules! idx_ref { ($g:expr, $k:expr) => { *$g[$k].key() }; }
     macro_rules! deg { ($n:expr) => { $n.degree() }; }
 
     macro_rules! dot_attr {
